@@ -182,7 +182,8 @@ pub fn render_wsca(words: &[String], f: &Fmt, r: &mut Rng) -> String {
         }
     }
     let mut s = lines.join(nl);
-    if f.trailing_newline && !s.is_empty() {
+    // a final blank line only exists if a line terminator follows it
+    if (f.trailing_newline && !s.is_empty()) || lines.last().map(|l| l.is_empty()).unwrap_or(false) {
         s.push_str(nl);
     }
     s
@@ -289,12 +290,23 @@ pub fn gen_groups(d: &Data, r: &mut Rng, max_groups: usize, allow_wild: bool) ->
 pub fn gen_words(d: &Data, r: &mut Rng) -> Vec<String> {
     let n = r.range(1, 8);
     let mut v: Vec<String> = Vec::new();
+    // blank lines are words too ("each word is declared on a new line"): at the start, in the
+    // middle and at the end of a list
+    if r.chance(1, 6) {
+        v.push(String::new());
+        if r.chance(1, 3) {
+            v.push(String::new());
+        }
+    }
     for i in 0..n {
         if i > 0 && i + 1 < n && r.chance(1, 8) {
             v.push(String::new());
         } else {
             v.push(safe_word(d, r));
         }
+    }
+    if r.chance(1, 8) {
+        v.push(String::new());
     }
     v
 }
